@@ -12,7 +12,10 @@ package keyspace
 //   - every 3-bit order key,
 //   - for allocation: every pair of non-empty sets of 3-bit keys and k in 1..3,
 //   - for regions: every set of "peers" whose 256-bit keys differ in their first
-//     4 bits only (built directly as bit256 keys), region sizes 1..3.
+//     4 bits only (built directly as bit256 keys), region sizes 1..3;
+//   - regions + key assignment + allocation composed as the provider does it:
+//     the same peer sets (quick: every 7th), 16 keys covering every 4-bit
+//     prefix, k = region size 1..3.
 //
 // Output protocol (parsed by govc check): one line per function
 //   BOUNDED-OK <function> cases=<n>
@@ -21,14 +24,17 @@ package keyspace
 
 import (
 	"fmt"
+	"os"
 	"sort"
 	"strings"
 	"testing"
 
+	"github.com/ipfs/go-libdht/kad/key"
 	"github.com/ipfs/go-libdht/kad/key/bit256"
 	"github.com/ipfs/go-libdht/kad/key/bitstr"
 	"github.com/ipfs/go-libdht/kad/trie"
 	"github.com/libp2p/go-libp2p/core/peer"
+	mh "github.com/multiformats/go-multihash"
 )
 
 const bMaxLen = 3
@@ -466,6 +472,138 @@ func TestBoundedC18(t *testing.T) {
 							r.fail("peers=%016b size=%d: key %q is under %d regions", m, size, x, cnt)
 						}
 					}
+				}
+			}
+		}
+		r.done()
+	}
+
+	// TrieGaps: the gaps are prefix-free, lie inside the target, cover exactly
+	// the part of the target that S does not cover, and come in traversal order
+	// (every S, every target, every order - no precondition).
+	{
+		r := &bReport{t: t, name: "TrieGaps"}
+		for _, s := range sets {
+			tr := bTrie(s)
+			for _, tg := range all {
+				for _, order := range orders {
+					r.cases++
+					gaps := TrieGaps(tr, tg, order)
+					covS, covG, covT := bCov(s), bCov(gaps), bCov([]bitstr.Key{tg})
+					ok := true
+					for _, x := range bFull(bMaxLen) {
+						if covG[x] != (covT[x] && !covS[x]) {
+							ok = false
+						}
+					}
+					for i, a := range gaps {
+						for j, b := range gaps {
+							if i != j && bIsPrefix(a, b) {
+								ok = false
+							}
+						}
+						if i > 0 {
+							// traversal order: compare on the common length
+							p, q := gaps[i-1], a
+							n := min(len(p), len(q))
+							if bRank(p[:n], order) >= bRank(q[:n], order) {
+								ok = false
+							}
+						}
+					}
+					if !ok {
+						r.fail("S=%q target=%q order=%q: got %q", s, tg, order, gaps)
+					}
+				}
+			}
+		}
+		r.done()
+	}
+
+	// Region planning end to end, exactly as the provider composes it:
+	// extractMinimalRegions -> AssignKeysToRegions -> AllocateToKClosest(r.Keys,
+	// r.Peers, k). Every key lands in one region and is allocated to exactly the
+	// min(k, region size) XOR-nearest peers of that region.
+	{
+		r := &bReport{t: t, name: "regions+allocation"}
+		const bits = 4
+		mk := func(v int) bit256.Key {
+			var b [32]byte
+			b[0] = byte(v << (8 - bits))
+			return bit256.NewKeyFromArray(b)
+		}
+		order := mk(0)
+		// 16 multihashes whose kademlia keys start with each of the 16 4-bit values
+		var keys []mh.Multihash
+		have := map[int]bool{}
+		for i := 0; len(keys) < 1<<bits; i++ {
+			m, _ := mh.Sum([]byte(fmt.Sprintf("bounded-key-%d", i)), mh.SHA2_256, -1)
+			k := MhToBit256(m)
+			v := 0
+			for j := 0; j < bits; j++ {
+				v = v<<1 | int(k.Bit(j))
+			}
+			if !have[v] {
+				have[v] = true
+				keys = append(keys, m)
+			}
+		}
+		step := 1
+		if os.Getenv("VERIF_TIER") != "thorough" {
+			step = 7 // quick: every 7th peer set (about 9 400 of 65 535)
+		}
+		for m := 1; m < 1<<(1<<bits); m += step {
+			pt := trie.New[bit256.Key, peer.ID]()
+			for v := 0; v < 1<<bits; v++ {
+				if m&(1<<v) != 0 {
+					pt.Add(mk(v), peer.ID(fmt.Sprintf("p%02d", v)))
+				}
+			}
+			for size := 1; size <= 3; size++ {
+				r.cases++
+				regions := AssignKeysToRegions(extractMinimalRegions(pt, "", size, order), keys)
+				placed := 0
+				for _, reg := range regions {
+					peers := AllEntries(reg.Peers, order)
+					alloc := AllocateToKClosest(reg.Keys, reg.Peers, size)
+					got := map[string]map[peer.ID]bool{}
+					for p, batches := range alloc {
+						for _, b := range batches {
+							for _, k := range b {
+								if got[string(k)] == nil {
+									got[string(k)] = map[peer.ID]bool{}
+								}
+								got[string(k)][p] = true
+							}
+						}
+					}
+					for _, k := range AllValues(reg.Keys, order) {
+						placed++
+						kk := MhToBit256(k)
+						srt := append([]trie.Entry[bit256.Key, peer.ID]{}, peers...)
+						sort.Slice(srt, func(i, j int) bool { return srt[i].Key.Xor(kk).Compare(srt[j].Key.Xor(kk)) < 0 })
+						n := min(size, len(srt))
+						ok := len(got[string(k)]) == n
+						for _, e := range srt[:n] {
+							if !got[string(k)][e.Data] {
+								ok = false
+							}
+						}
+						if !ok {
+							var g, w []string
+							for p := range got[string(k)] {
+								g = append(g, string(p))
+							}
+							for _, e := range srt[:n] {
+								w = append(w, string(e.Data))
+							}
+							sort.Strings(g)
+							r.fail("peers=%016b k=%d region=%q: key with prefix %s allocated to %v, nearest peers of the region are %v", m, size, reg.Prefix, key.BitString(kk)[:bits], g, w)
+						}
+					}
+				}
+				if placed != len(keys) {
+					r.fail("peers=%016b k=%d: %d of %d keys placed in a region", m, size, placed, len(keys))
 				}
 			}
 		}
